@@ -151,3 +151,18 @@ CONFIG["C02"] = {
     "counter_floors": {"quick": {"accept.Redeem": 300, "reject.sharing-not-maximal": 100, "reject.not-canonical-order": 100, "reject.illegal-padding": 100, "reject.trailing-bytes": 100},
                        "thorough": {"accept.Redeem": 10000}},
 }
+
+CONFIG["C07"] = {
+    "budget_s": {"quick": 120, "thorough": 1800},
+    "floor": {"quick": 10000, "thorough": 500000},
+    "passes": [{"variant": "verif"}, {"variant": "rel"}],
+    "rule": ("(1) type-directed programs biased towards deep comp/disconnect nesting (fuel up to 40, thorough 120), case branches of unequal size, Core jets, witnesses, and programs over wide types "
+             "(up to ~1500 bits, words to 2^9): each is run on three inputs (all-left, all-right, random) through BitMachine::for_program/input/exec; the verif-hooks readings are judged after every run, "
+             "failing ones included: high-water of live cells <= |A|+|B|+extra_cells and <= buffer size, high-water of read+write frames <= extra_frames+2, zero frame accesses outside their frame, no panic. "
+             "(2) 34 enumerated 'bombs' (pair towers 2^10..2^70 behind one, two and three comps, wide pair/take, comp chains of 10^3 and around 2^20 frames): the true bound is re-computed in u128; "
+             "for_program must refuse exactly when it exceeds the hard limits, and refuse without allocating more than 1 MiB. Both passes: release with debug assertions/overflow checks (`verif`) and plain release (`rel`). "
+             "Slack histograms are telemetry. Non-trivial: >= 5 nodes; distinct: distinct program renderings / bomb names."),
+    "exhaustive_claim": "the 34 listed bomb programs",
+    "assumptions": COMMON_ASSUMPTIONS + ["the cost bound is not compared with a measured cost here (C03 compares it with C)", "a BitMachine is used for exactly one exec"],
+    "counter_floors": {"quick": {"run.ok": 20000, "run.failed": 2000, "bomb.refused": 20}, "thorough": {"run.ok": 500000}},
+}
